@@ -304,11 +304,17 @@ async def copy_ctx_starter(ctx, starter):
 def main():
     payload = json.load(sys.stdin)
     res = []
+    hangs = 0
     for case in payload["cases"]:
+        if hangs >= 3:
+            # enough: something makes startups impossible to stop; do not spend the whole budget waiting
+            res.append({"backend": case["backend"], "prog": case["prog"], "skipped": True})
+            continue
         try:
             async def runner():
                 return await run_case(case)
-            how, r = run_guarded(runner, case["backend"])
+            how, r = run_guarded(runner, case["backend"], seconds=20)
+            hangs += how == "hang"
             if how == "hang":
                 r = {"backend": case["backend"], "prog": case["prog"], "choices": case["choices"],
                      "timeout": case["timeout"], "hang": True}
